@@ -90,6 +90,11 @@ func (n *Node) Release() {
 // gate: returns the error the call should fail with (nil = proceed).
 var errKind uint32
 
+// FailMidStreamOnce: when 1, the next SearchPartitions call (on whichever node it arrives) breaks off with Unavailable
+// after it has streamed its first item (a node that dies while it answers); MidStreamFailed names that node
+var FailMidStreamOnce int32
+var MidStreamFailed uint64
+
 func (n *Node) gate(ctx context.Context, what string) error {
 	n.mu.Lock()
 	rel, outcome := n.release, n.Outcome
@@ -143,6 +148,10 @@ func (n *Node) SearchPartitions(req *pb.SearchPartitionsRequest, stream pb.Searc
 			}
 			if err := stream.Send(&pb.SearchResultItem{Id: it.Id.Bytes(), Score: it.Score}); err != nil {
 				return err
+			}
+			if atomic.CompareAndSwapInt32(&FailMidStreamOnce, 1, 0) {
+				atomic.StoreUint64(&MidStreamFailed, n.Id)
+				return status.Error(codes.Unavailable, "scripted failure: the node went away in the middle of its answer")
 			}
 		}
 	}
